@@ -266,3 +266,20 @@ Proof.
 Qed.
 Lemma cosd_table_has_8 : List.length exact_cosd_table = 8%nat.
 Proof. reflexivity. Qed.
+
+(* ---- Nx3 arrays and broadcasting: numpy applies the vector operation row by row ---- *)
+Theorem frac_cart_id_rows a b c alpha beta gamma r (us : list vec) : valid_cell a b c alpha beta gamma -> proper_rot r ->
+  let L := build a b c alpha beta gamma r in List.map (L_fractional L) (List.map (L_cartesian L) us) = us.
+Proof.
+  intros HC HR. cbv zeta. rewrite List.map_map. rewrite <- (List.map_id us) at 2. apply List.map_ext.
+  intros u. exact (frac_cart_id a b c alpha beta gamma r u HC HR).
+Qed.
+Theorem dot_rows_is_euclid a b c alpha beta gamma r (u : vec) (vs : list vec) : valid_cell a b c alpha beta gamma -> proper_rot r ->
+  let L := build a b c alpha beta gamma r in
+  List.map (L_dot L u) vs = List.map (fun v => vdot (L_cartesian L u) (L_cartesian L v)) vs.
+Proof. intros HC HR. cbv zeta. apply List.map_ext. intros v. exact (dot_is_euclid a b c alpha beta gamma r u v HC HR). Qed.
+Theorem dist_rows_is_euclid (L : lat) (u : vec) (vs : list vec) :
+  List.map (L_dist L u) vs = List.map (fun v => edist (L_cartesian L u) (L_cartesian L v)) vs.
+Proof. apply List.map_ext. intros v. apply dist_is_euclid. Qed.
+Theorem norm_rows_is_euclid (L : lat) (xs : list vec) : List.map (L_norm L) xs = List.map (fun x => enorm (L_cartesian L x)) xs.
+Proof. apply List.map_ext. intros x. apply norm_is_euclid. Qed.
